@@ -376,6 +376,8 @@ impl<T: Dom> Sys<T> {
             (max - 1, max),
             (p1, p1 - 1),
             (max, 0),
+            // three pages: partial first page, whole middle page, one value of the last page
+            (1, p2),
         ];
         if small {
             ranges.extend([(p1 + 1, max - 1), (p2, max), (0, max)]);
@@ -495,6 +497,14 @@ impl<T: Dom> Sys<T> {
             failed: None,
         };
         st.failed = self.observe(&st.set, &st.model, true).err();
+        // From<[T; N]> (unsorted, with a duplicate) against the reference, once per domain
+        if st.failed.is_none() && !self.start_full {
+            let l = &self.lists[2];
+            let arr: [T; 4] = [T::val(l[0]), T::val(l[1]), T::val(l[2]), T::val(l[3])];
+            let s4 = IntSet::<T>::from(arr);
+            let m4 = RSet::from_values(l.iter().copied());
+            st.failed = self.observe(&s4, &m4, true).err().map(|(l, d)| (format!("{l} (From<[T; N]>)"), d));
+        }
         st
     }
 
@@ -658,35 +668,47 @@ impl<T: Dom> Sys<T> {
         if got != tail {
             return fail("iter().rev()", first_diff(&got, &tail));
         }
-        // double-ended iteration meeting in the middle: alternate next / next_back
+        // double-ended iteration meeting in the middle: next / next_back interleaved in a fixed cyclic
+        // pattern (true = next). Every transition: strict alternation; full tier: also back-first and
+        // the 2:1 patterns.
         {
             let lim = if k == usize::MAX { usize::MAX } else { k.min(64) };
-            let mut it = set.iter();
-            let (mut f, mut b) = (vec![], vec![]);
-            let mut steps = 0usize;
-            loop {
-                if steps >= lim {
-                    break;
+            let patterns: &[&[bool]] = if full { &[&[true, false], &[false, true], &[true, true, false], &[false, false, true]] } else { &[&[true, false]] };
+            for pat in patterns {
+                let mut it = set.iter();
+                let (mut f, mut b) = (vec![], vec![]);
+                let mut steps = 0usize;
+                'walk: loop {
+                    if steps >= lim {
+                        break;
+                    }
+                    for fwd in pat.iter() {
+                        if *fwd {
+                            match it.next() {
+                                Some(x) => f.push(x.idx()),
+                                None => break 'walk,
+                            }
+                        } else {
+                            match it.next_back() {
+                                Some(x) => b.push(x.idx()),
+                                None => break 'walk,
+                            }
+                        }
+                    }
+                    steps += 1;
                 }
-                match it.next() {
-                    Some(x) => f.push(x.idx()),
-                    None => break,
+                if lim == usize::MAX {
+                    // the iterator is exhausted (behaviour after the first None is not judged: the
+                    // Iterator contract leaves it open); every element was produced exactly once:
+                    // front part ascending + back part
+                    let mut all = f.clone();
+                    all.extend(b.iter().rev());
+                    if all != head {
+                        return fail("iter() mixed next/next_back", format!("pattern {pat:?}: {}", first_diff(&all, &head)));
+                    }
+                } else if f[..] != head[..f.len().min(head.len())] || b[..] != tail[..b.len().min(tail.len())] {
+                    return fail("iter() mixed next/next_back", format!("pattern {pat:?}: front {:?} back {:?}", &f[..f.len().min(4)], &b[..b.len().min(4)]));
                 }
-                match it.next_back() {
-                    Some(x) => b.push(x.idx()),
-                    None => break,
-                }
-                steps += 1;
-            }
-            if lim == usize::MAX {
-                // every element exactly once: front part ascending + back part
-                let mut all = f.clone();
-                all.extend(b.iter().rev());
-                if all != head {
-                    return fail("iter() mixed next/next_back", first_diff(&all, &head));
-                }
-            } else if f[..] != head[..f.len().min(head.len())] || b[..] != tail[..b.len().min(tail.len())] {
-                return fail("iter() mixed next/next_back", format!("front {:?} back {:?}", &f[..f.len().min(4)], &b[..b.len().min(4)]));
             }
         }
         // inclusive_iter
@@ -708,7 +730,8 @@ impl<T: Dom> Sys<T> {
         }
         // iter_after
         let kk = if k == usize::MAX { usize::MAX } else { k.min(40) };
-        for p in &self.v {
+        let pts: &Vec<u64> = if full { &self.probe } else { &self.v };
+        for p in pts {
             let exp = model.after(*p).head(kk.min(n as usize));
             let got: Vec<u64> = set.iter_after(T::val(*p)).take(kk).map(T::idx).collect();
             if got != exp {
@@ -729,8 +752,8 @@ impl<T: Dom> Sys<T> {
             return fail("iter_excluded_ranges", format!("got {:?} expected {:?}", trunc(&got), trunc(&comp.r)));
         }
         // intersects_range over V x V (reversed pairs are empty ranges)
-        for a in &self.v {
-            for b in &self.v {
+        for a in pts {
+            for b in pts {
                 let got = set.intersects_range(T::val(*a)..=T::val(*b));
                 if got != model.intersects_range(*a, *b) {
                     return fail("intersects_range", format!("intersects_range({a}..={b})={got}"));
@@ -757,6 +780,9 @@ impl<T: Dom> Sys<T> {
             if op.set.cmp(set) != ord.reverse() {
                 return fail("cmp", format!("{}.cmp(self) = {:?} expected {:?}", op.desc, op.set.cmp(set), ord.reverse()));
             }
+            if full && (set.partial_cmp(&op.set) != Some(ord) || (set < &op.set) != (ord == std::cmp::Ordering::Less) || (set >= &op.set) != (ord != std::cmp::Ordering::Less)) {
+                return fail("partial_cmp", format!("partial_cmp({}) / operators disagree with {:?}", op.desc, ord));
+            }
             if eq && hash_of(set) != hash_of(&op.set) {
                 return fail("hash", format!("equal to {} but hashes differ", op.desc));
             }
@@ -777,6 +803,22 @@ impl<T: Dom> Sys<T> {
             }
             if hash_of(&fresh) != h {
                 return fail("hash", "hash differs from a fresh inclusive set with the same members".into());
+            }
+        }
+        // other documented construction routes must give the same set: FromIterator (sorted input),
+        // Default + extend_unsorted (descending input), new() + Extend, Clone
+        if full && model.len() <= 2 * WIDE {
+            let vals: Vec<u64> = model.head(model.len() as usize);
+            let a: IntSet<T> = vals.iter().map(|x| T::val(*x)).collect();
+            let mut b = IntSet::<T>::default();
+            b.extend_unsorted(vals.iter().rev().map(|x| T::val(*x)));
+            let mut c = IntSet::<T>::new();
+            c.extend(vals.iter().map(|x| T::val(*x)));
+            let d = set.clone();
+            for (name, o) in [("from_iter", &a), ("default + extend_unsorted(descending)", &b), ("new + extend", &c), ("clone", &d)] {
+                if !(set == o) || !(o == set) || o.len() != model.len() || set.cmp(o) != std::cmp::Ordering::Equal || hash_of(o) != h {
+                    return fail("constructors", format!("the set built by {name} from the same members is not equal / Equal / hash-equal to this set"));
+                }
             }
         }
         if full && comp.len() <= 2 * WIDE {
